@@ -1298,7 +1298,17 @@ fn check_matching_pattern(
               field_name.name,
             );
           }
-          not_mentioned_fields.remove(&field_name.name);
+          if !not_mentioned_fields.remove(&field_name.name)
+            && let Some(previous) =
+              destructured_names.iter().find(|e| e.field_name.name == field_name.name)
+          {
+            // Only the last sub-pattern of a field mentioned twice would be analyzed.
+            cx.error_set.report_name_already_bound_error(
+              field_name.loc,
+              field_name.name,
+              previous.field_name.loc,
+            );
+          }
           let (checked, abstract_node) =
             check_matching_pattern(cx, pattern, wildcard_on_bad_pattern, field_type);
           let field_order = field_order_mapping.get(&field_name.name).unwrap();
